@@ -623,3 +623,419 @@ Proof.
 Qed.
 
 End Trees.
+
+(* ------------------------------------------------------------------ *)
+(* 5. corollaries: loops, conditionals, unrolled sources               *)
+(* ------------------------------------------------------------------ *)
+Section TreeCorollaries.
+Context {T : Type}.
+Variable sub : string -> string -> T -> T.
+Variable cx : context.
+Notation node := (@node T).
+Notation expands := (expands sub cx).
+
+Lemma expands_app f1 o1 f2 o2 : expands f1 o1 -> expands f2 o2 -> expands (f1 ++ f2) (o1 ++ o2).
+Proof.
+  induction 1; intros H2; simpl.
+  - exact H2.
+  - constructor. auto.
+  - rewrite <- app_assoc. econstructor; eauto.
+  - rewrite <- app_assoc. econstructor; eauto.
+Qed.
+
+Lemma expands_concat (g : string -> list node) tl outs :
+  Forall2 (fun tok o => expands (g tok) o) tl outs -> expands (flat_map g tl) (List.concat outs).
+Proof. induction 1; simpl; [constructor | apply expands_app; assumption]. Qed.
+
+(* a loop is the concatenation, over its tokens in order, of its body with the control name replaced *)
+Theorem for_expansion c toks body tl outs :
+  tokens_of cx toks = Some tl ->
+  Forall2 (fun tok o => expands (map (subst_node sub c tok) body) o) tl outs ->
+  expands [NFor c toks body] (List.concat outs)
+  /\ exists n, forall fuel, (n <= fuel)%nat ->
+       resolve sub cx true fuel (DFor c toks :: flatten body ++ [DEnd]) = ROk (List.concat outs).
+Proof.
+  intros Ht Hall.
+  assert (He : expands [NFor c toks body] (List.concat outs)).
+  { rewrite <- (app_nil_r (List.concat outs)). econstructor; [exact Ht | | constructor].
+    apply expands_concat. exact Hall. }
+  split; [exact He|].
+  destruct (resolve_flatten sub cx _ _ He) as [n Hn]. exists n. intros fuel Hf.
+  specialize (Hn fuel Hf). unfold flatten in Hn. simpl in Hn. rewrite app_nil_r in Hn. exact Hn.
+Qed.
+
+(* a conditional is its selected branch *)
+Theorem if_selection cd th el b out :
+  cond_eval cx cd = Some b ->
+  expands (if b then th else match el with Some l => l | None => [] end) out ->
+  expands [NIf cd th el] out
+  /\ exists n, forall fuel, (n <= fuel)%nat -> resolve sub cx true fuel (flatten [NIf cd th el]) = ROk out.
+Proof.
+  intros Hc Hb.
+  assert (He : expands [NIf cd th el] out).
+  { rewrite <- (app_nil_r out). econstructor; [exact Hc | exact Hb | constructor]. }
+  split; [exact He|]. apply resolve_flatten. exact He.
+Qed.
+
+(* the expansion is unique *)
+Theorem expands_deterministic f o1 o2 : expands f o1 -> expands f o2 -> o1 = o2.
+Proof.
+  intros H1 H2.
+  destruct (resolve_flatten sub cx _ _ H1) as [n1 E1]. destruct (resolve_flatten sub cx _ _ H2) as [n2 E2].
+  specialize (E1 (Nat.max n1 n2) (Nat.le_max_l _ _)). specialize (E2 (Nat.max n1 n2) (Nat.le_max_r _ _)).
+  rewrite E1 in E2. inversion E2. reflexivity.
+Qed.
+
+Lemma resolve_text (items : list T) be : forall fuel, (List.length items < fuel)%nat ->
+  resolve sub cx be fuel (map DText items) = ROk items.
+Proof.
+  induction items as [|x r IH]; intros [|fu] Hf; simpl in *; try lia; [reflexivity|].
+  rewrite IH by lia. reflexivity.
+Qed.
+
+End TreeCorollaries.
+
+(* a source and the same source with every !for / !if expanded by hand compile to the same model *)
+Theorem unrolled_source_same_model cx (f : list (@node item)) items :
+  expands subst_item cx f items ->
+  exists n, forall fuel, (n <= fuel)%nat ->
+    compile cx true fuel (flatten f) = compile cx true fuel (map DText items).
+Proof.
+  intros He. destruct (resolve_flatten subst_item cx _ _ He) as [n Hn].
+  exists (Nat.max n (S (List.length items))). intros fuel Hf. unfold compile.
+  rewrite Hn by lia. rewrite resolve_text by lia. reflexivity.
+Qed.
+
+(* the code before the repair of _find_matching_else (search not bounded by the matching !end)
+   does not satisfy Theorem 4: an !if without !else followed by an !if with !else is rejected *)
+Definition cd_true : cond := CdCmp CmpEq (IConst 0) (IConst 0).
+Definition sub_nat : string -> string -> nat -> nat := fun _ _ x => x.
+Definition refuting_forest : list (@node nat) :=
+  [NIf cd_true [NText 1%nat] None; NIf cd_true [NText 2%nat] (Some [NText 3%nat])].
+
+Theorem unbounded_else_refuted :
+  expands sub_nat [] refuting_forest [1%nat; 2%nat]
+  /\ resolve sub_nat [] false 100 (flatten refuting_forest) = RErr
+  /\ resolve sub_nat [] true 100 (flatten refuting_forest) = ROk [1%nat; 2%nat].
+Proof.
+  split; [| split; vm_compute; reflexivity].
+  unfold refuting_forest.
+  change [1%nat; 2%nat] with ([1%nat] ++ [2%nat]).
+  eapply (X_if sub_nat [] cd_true [NText 1%nat] None _ true); [reflexivity | repeat constructor |].
+  change [2%nat] with ([2%nat] ++ []).
+  eapply (X_if sub_nat [] cd_true [NText 2%nat] (Some [NText 3%nat]) _ true); [reflexivity | repeat constructor | constructor].
+Qed.
+
+(* non-vacuity of Theorem 4: a loop nested in a loop nested in a conditional, over strings *)
+Definition sub_str : string -> string -> string -> string :=
+  fun c tok x => if String.eqb x c then tok else x.
+Example nested_example :
+  let f := [NIf cd_true
+              [NFor "?a" [TokName [Lit "x"]; TokName [Lit "y"]]
+                 [NText "?a"%string; NFor "?b" [TokName [Ctl "?a" VPlain; Lit "1"]; TokName [Lit "z"]] [NText "?b"%string]]]
+              (Some [NText "no"%string])] in
+  expands sub_str [] f ["x"; "x1"; "z"; "y"; "y1"; "z"]%string
+  /\ resolve sub_str [] true 50 (flatten f) = ROk ["x"; "x1"; "z"; "y"; "y1"; "z"]%string.
+Proof.
+  split; [| vm_compute; reflexivity].
+  rewrite <- (app_nil_r ["x"; "x1"; "z"; "y"; "y1"; "z"]%string).
+  eapply X_if with (b := true); [reflexivity | | constructor].
+  rewrite <- (app_nil_r ["x"; "x1"; "z"; "y"; "y1"; "z"]%string).
+  eapply X_for; [reflexivity | | constructor]. cbn.
+  apply X_text. change ["x1"; "z"; "y"; "y1"; "z"]%string with (["x1"%string; "z"%string] ++ ["y"%string; "y1"%string; "z"%string])%list.
+  eapply X_for; [reflexivity | cbn; repeat constructor |].
+  apply X_text. rewrite <- (app_nil_r ["y1"; "z"]%string).
+  eapply X_for; [reflexivity | cbn; repeat constructor | constructor].
+Qed.
+
+(* ------------------------------------------------------------------ *)
+(* 6. the generated templates: shape facts                             *)
+(* ------------------------------------------------------------------ *)
+(* A builder's string is spliced into the equation text; the splice equals substitution in
+   the syntax tree when the string is delimited by its own parentheses and every hole sits
+   directly inside parentheses (or is the argument of a call). *)
+Definition tpl_closed (t : tpl) : bool :=
+  match t with TParen _ | TNum _ | TCall1 _ _ | TTotal => true | _ => false end.
+
+Fixpoint holes_safe (inside : bool) (t : tpl) : bool :=
+  match t with
+  | TCode | TShifted | TJoin _ => inside
+  | TTotal | TNum _ => true
+  | TBin _ a b => holes_safe false a && holes_safe false b
+  | TNeg a => holes_safe false a
+  | TCall1 _ a => holes_safe true a
+  | TParen a => holes_safe true a
+  end.
+
+Definition mov_elems_ok (s : Z) : bool :=
+  let seq := fst (mov_sequence s) in
+  (Nat.eqb (List.length seq) 1 && forallb (fun ts : tpl * Z => holes_safe true (fst ts)) seq)
+  || forallb (fun ts : tpl * Z => tpl_closed (fst ts) && holes_safe false (fst ts)) seq.
+
+Lemma templates_self_delimiting :
+  (forall p, tpl_closed (pseudo_template p) = true /\ holes_safe false (pseudo_template p) = true)
+  /\ (forall s, mov_elems_ok s = true).
+Proof.
+  split.
+  - intros p. destruct p; split; reflexivity.
+  - intros s. unfold mov_elems_ok. rewrite mov_sequence_spec.
+    destruct (s =? 0); [reflexivity|]. destruct ((s =? 1) || (s =? -1)); [reflexivity|].
+    cbn [fst]. apply orb_true_iff. right. rewrite forallb_forall. intros x Hx.
+    apply in_map_iff in Hx. destruct Hx as [sh [<- _]]. reflexivity.
+Qed.
+
+Lemma residual_template_shape : residual_template = TBin Add (TNeg (TParen TCode)) TShifted.
+Proof. reflexivity. Qed.
+
+Lemma resolution_table :
+  lookup_pseudo pseudo_resolution "shift" = Some (Pshift, -1) /\
+  lookup_pseudo pseudo_resolution "diff" = Some (Pdiff, -1) /\
+  lookup_pseudo pseudo_resolution "diff_log" = Some (Pdifflog, -1) /\
+  lookup_pseudo pseudo_resolution "difflog" = Some (Pdifflog, -1) /\
+  lookup_pseudo pseudo_resolution "pct" = Some (Ppct, -1) /\
+  lookup_pseudo pseudo_resolution "roc" = Some (Proc, -1) /\
+  lookup_pseudo pseudo_resolution "mov_sum" = Some (Pmovsum, -4) /\
+  lookup_pseudo pseudo_resolution "movsum" = Some (Pmovsum, -4) /\
+  lookup_pseudo pseudo_resolution "mov_avg" = Some (Pmovavg, -4) /\
+  lookup_pseudo pseudo_resolution "movavg" = Some (Pmovavg, -4) /\
+  lookup_pseudo pseudo_resolution "mov_prod" = Some (Pmovprod, -4) /\
+  lookup_pseudo pseudo_resolution "movprod" = Some (Pmovprod, -4).
+Proof. repeat split; reflexivity. Qed.
+
+Lemma kind_tables :
+  entry_order = [QTransitionVariable; QTransitionShock; QMeasurementVariable; QParameter; QExogenousVariable; QMeasurementShock]
+  /\ loggable_kinds = [QTransitionVariable; QMeasurementVariable; QExogenousVariable]
+  /\ NoDup kind_order /\ (forall k, In k kind_order).
+Proof.
+  repeat split; try reflexivity.
+  - unfold kind_order. repeat (constructor; [simpl; intuition discriminate|]). constructor.
+  - intros k. destruct k; simpl; tauto.
+Qed.
+
+(* ------------------------------------------------------------------ *)
+(* 7. documented formulas, spelled out                                 *)
+(* ------------------------------------------------------------------ *)
+Section Formulas.
+Variable C : carrier.
+Notation V := (val C).
+Variable vinv : V -> V.
+Hypothesis Rth : ring_theory (vnum C 0 0) (vnum C 1 0) (vadd C) (vmul C) (vsub C) (vneg C) eq.
+Hypothesis div_def : forall x y, vdiv C x y = vmul C x (vinv y).
+Add Ring Vring3 : Rth.
+Context {N : Type}.
+Variable rho : N -> Z -> V.
+Notation ev := (sem C rho).
+
+(* sum of f 0, f 1, ..., f (n-1) *)
+Fixpoint bigsum (f : nat -> V) (n : nat) : V :=
+  match n with O => vnum C 0 0 | S m => vadd C (bigsum f m) (f m) end.
+Fixpoint bigprod (f : nat -> V) (n : nat) : V :=
+  match n with O => vnum C 1 0 | S m => vmul C (bigprod f m) (f m) end.
+
+Lemma bigsum_ext f g n : (forall i, f i = g i) -> bigsum f n = bigsum g n.
+Proof. intros H. induction n; simpl; [reflexivity|]. rewrite IHn, H. reflexivity. Qed.
+Lemma bigprod_ext f g n : (forall i, f i = g i) -> bigprod f n = bigprod g n.
+Proof. intros H. induction n; simpl; [reflexivity|]. rewrite IHn, H. reflexivity. Qed.
+
+Lemma window_bigsum (f : Z -> V) st m :
+  window C (vadd C) f st m = bigsum (fun i => f (Z.of_nat i * st)) (S m).
+Proof.
+  induction m as [|m IH].
+  - simpl. ring.
+  - change (window C (vadd C) f st (S m)) with (vadd C (window C (vadd C) f st m) (f (Z.of_nat (S m) * st))).
+    rewrite IH. reflexivity.
+Qed.
+
+Lemma window_bigprod (f : Z -> V) st m :
+  window C (vmul C) f st m = bigprod (fun i => f (Z.of_nat i * st)) (S m).
+Proof.
+  induction m as [|m IH].
+  - simpl. ring.
+  - change (window C (vmul C) f st (S m)) with (vmul C (window C (vmul C) f st m) (f (Z.of_nat (S m) * st))).
+    rewrite IH. reflexivity.
+Qed.
+
+Ltac known f v :=
+  rewrite (expand_sem C rho vinv Rth div_def); cbn [sem];
+  replace (lookup_pseudo pseudo_resolution f) with (Some v) by reflexivity;
+  unfold pseudo_sem, resolve_shift.
+
+Theorem pseudo_formulas (e : cexpr N) (t : Z) :
+  (forall k, (ev (expand (CPseudo "shift" e (Some k))) t) = (ev (e) (t + k))) /\
+  (forall k, (ev (expand (CPseudo "diff" e (Some k))) t) = vsub C ((ev (e) t)) ((ev (e) (t + k)))) /\
+  (forall k, (ev (expand (CPseudo "diff_log" e (Some k))) t) = vsub C (vfun C "log" [(ev (e) t)]) (vfun C "log" [(ev (e) (t + k))])) /\
+  (forall k, (ev (expand (CPseudo "difflog" e (Some k))) t) = vsub C (vfun C "log" [(ev (e) t)]) (vfun C "log" [(ev (e) (t + k))])) /\
+  (forall k, (ev (expand (CPseudo "pct" e (Some k))) t)
+             = vmul C (vnum C 100 0) (vsub C (vdiv C ((ev (e) t)) ((ev (e) (t + k)))) (vnum C 1 0))) /\
+  (forall k, (ev (expand (CPseudo "roc" e (Some k))) t) = vdiv C ((ev (e) t)) ((ev (e) (t + k)))) /\
+  (* windows of n+1 terms: k = -(n+1) looks backward, k = n+1 forward *)
+  (forall n f, In f ["mov_sum"; "movsum"]%string ->
+     (ev (expand (CPseudo f e (Some (- Z.of_nat (S n))))) t) = bigsum (fun i => (ev (e) (t - Z.of_nat i))) (S n) /\
+     (ev (expand (CPseudo f e (Some (Z.of_nat (S n))))) t) = bigsum (fun i => (ev (e) (t + Z.of_nat i))) (S n)) /\
+  (forall n f, In f ["mov_avg"; "movavg"]%string ->
+     (ev (expand (CPseudo f e (Some (- Z.of_nat (S n))))) t)
+       = vdiv C (bigsum (fun i => (ev (e) (t - Z.of_nat i))) (S n)) (vnum C (Z.of_nat (S n)) 0)) /\
+  (forall n f, In f ["mov_prod"; "movprod"]%string ->
+     (ev (expand (CPseudo f e (Some (- Z.of_nat (S n))))) t) = bigprod (fun i => (ev (e) (t - Z.of_nat i))) (S n)) /\
+  (* defaults *)
+  (forall f, In f ["shift"; "diff"; "diff_log"; "difflog"; "pct"; "roc"]%string ->
+     (ev (expand (CPseudo f e None)) t) = (ev (expand (CPseudo f e (Some (-1)))) t)) /\
+  (forall f, In f ["mov_sum"; "movsum"; "mov_avg"; "movavg"; "mov_prod"; "movprod"]%string ->
+     (ev (expand (CPseudo f e None)) t) = (ev (expand (CPseudo f e (Some (-4)))) t)).
+Proof.
+  assert (Hneg : forall n, Z.to_nat (Z.abs (- Z.of_nat (S n))) = S n) by (intros; lia).
+  assert (Hpos : forall n, Z.to_nat (Z.abs (Z.of_nat (S n))) = S n) by (intros; lia).
+  assert (Sneg : forall n, sgn (- Z.of_nat (S n)) = -1)
+    by (intros n; unfold sgn; destruct (Z.gtb_spec (- Z.of_nat (S n)) 0); [lia|]; destruct (Z.eqb_spec (- Z.of_nat (S n)) 0); [lia|reflexivity]).
+  assert (Spos : forall n, sgn (Z.of_nat (S n)) = 1)
+    by (intros n; unfold sgn; destruct (Z.gtb_spec (Z.of_nat (S n)) 0); [reflexivity|lia]).
+  split; [|split; [|split; [|split; [|split; [|split; [|split; [|split; [|split; [|split]]]]]]]]].
+  - intros k. known "shift"%string (Pshift, -1). reflexivity.
+  - intros k. known "diff"%string (Pdiff, -1). rewrite Z.add_0_r. reflexivity.
+  - intros k. known "diff_log"%string (Pdifflog, -1). rewrite Z.add_0_r. reflexivity.
+  - intros k. known "difflog"%string (Pdifflog, -1). rewrite Z.add_0_r. reflexivity.
+  - intros k. known "pct"%string (Ppct, -1). rewrite Z.add_0_r. reflexivity.
+  - intros k. known "roc"%string (Proc, -1). rewrite Z.add_0_r. reflexivity.
+  - intros n f H. split.
+    + destruct H as [<-|[<-|[]]]; [known "mov_sum"%string (Pmovsum, -4) | known "movsum"%string (Pmovsum, -4)];
+        rewrite Hneg, Sneg, window_bigsum; apply bigsum_ext; intros i; f_equal; lia.
+    + destruct H as [<-|[<-|[]]]; [known "mov_sum"%string (Pmovsum, -4) | known "movsum"%string (Pmovsum, -4)];
+        rewrite Hpos, Spos, window_bigsum; apply bigsum_ext; intros i; f_equal; lia.
+  - intros n f H. destruct H as [<-|[<-|[]]]; [known "mov_avg"%string (Pmovavg, -4) | known "movavg"%string (Pmovavg, -4)];
+      rewrite Hneg, Sneg, window_bigsum; (replace (Z.abs (- Z.of_nat (S n))) with (Z.of_nat (S n)) by lia); f_equal;
+      apply bigsum_ext; intros i; f_equal; lia.
+  - intros n f H. destruct H as [<-|[<-|[]]]; [known "mov_prod"%string (Pmovprod, -4) | known "movprod"%string (Pmovprod, -4)];
+      rewrite Hneg, Sneg, window_bigprod; apply bigprod_ext; intros i; f_equal; lia.
+  - intros f H.
+    rewrite !(expand_sem C rho vinv Rth div_def). cbn [sem].
+    repeat (destruct H as [<-|H]; [reflexivity|]). destruct H.
+  - intros f H.
+    rewrite !(expand_sem C rho vinv Rth div_def). cbn [sem].
+    repeat (destruct H as [<-|H]; [reflexivity|]). destruct H.
+Qed.
+
+End Formulas.
+
+(* ------------------------------------------------------------------ *)
+(* 8. statements in the form used by props/C04.v                       *)
+(* ------------------------------------------------------------------ *)
+(* the carrier is a commutative ring whose division is multiplication by an inverse *)
+Definition lawful (C : carrier) (vinv : val C -> val C) : Prop :=
+  ring_theory (vnum C 0 0) (vnum C 1 0) (vadd C) (vmul C) (vsub C) (vneg C) eq
+  /\ (forall x y : val C, vdiv C x y = vmul C x (vinv y)).
+
+Lemma expand_sem_lawful C vinv : lawful C vinv ->
+  forall (N : Type) (rho : N -> Z -> val C) (e : cexpr N) (t : Z), sem C rho (expand e) t = sem C rho e t.
+Proof. intros [H1 H2] N rho e t. exact (expand_sem C rho vinv H1 H2 e t). Qed.
+
+Definition pseudo_formulas_statement (C : carrier) : Prop :=
+  forall (N : Type) (rho : N -> Z -> val C) (e : cexpr N) (t : Z),
+  let ev := sem C rho in
+  (forall k, ev (expand (CPseudo "shift" e (Some k))) t = ev e (t + k)) /\
+  (forall k, ev (expand (CPseudo "diff" e (Some k))) t = vsub C (ev e t) (ev e (t + k))) /\
+  (forall k, ev (expand (CPseudo "diff_log" e (Some k))) t = vsub C (vfun C "log" [ev e t]) (vfun C "log" [ev e (t + k)])) /\
+  (forall k, ev (expand (CPseudo "difflog" e (Some k))) t = vsub C (vfun C "log" [ev e t]) (vfun C "log" [ev e (t + k)])) /\
+  (forall k, ev (expand (CPseudo "pct" e (Some k))) t
+             = vmul C (vnum C 100 0) (vsub C (vdiv C (ev e t) (ev e (t + k))) (vnum C 1 0))) /\
+  (forall k, ev (expand (CPseudo "roc" e (Some k))) t = vdiv C (ev e t) (ev e (t + k))) /\
+  (forall n f, In f ["mov_sum"; "movsum"]%string ->
+     ev (expand (CPseudo f e (Some (- Z.of_nat (S n))))) t = bigsum C (fun i => ev e (t - Z.of_nat i)) (S n) /\
+     ev (expand (CPseudo f e (Some (Z.of_nat (S n))))) t = bigsum C (fun i => ev e (t + Z.of_nat i)) (S n)) /\
+  (forall n f, In f ["mov_avg"; "movavg"]%string ->
+     ev (expand (CPseudo f e (Some (- Z.of_nat (S n))))) t
+       = vdiv C (bigsum C (fun i => ev e (t - Z.of_nat i)) (S n)) (vnum C (Z.of_nat (S n)) 0)) /\
+  (forall n f, In f ["mov_prod"; "movprod"]%string ->
+     ev (expand (CPseudo f e (Some (- Z.of_nat (S n))))) t = bigprod C (fun i => ev e (t - Z.of_nat i)) (S n)) /\
+  (forall f, In f ["shift"; "diff"; "diff_log"; "difflog"; "pct"; "roc"]%string ->
+     ev (expand (CPseudo f e None)) t = ev (expand (CPseudo f e (Some (-1)))) t) /\
+  (forall f, In f ["mov_sum"; "movsum"; "mov_avg"; "movavg"; "mov_prod"; "movprod"]%string ->
+     ev (expand (CPseudo f e None)) t = ev (expand (CPseudo f e (Some (-4)))) t).
+
+Lemma pseudo_formulas_lawful C vinv : lawful C vinv -> pseudo_formulas_statement C.
+Proof. intros [H1 H2] N rho e t. exact (pseudo_formulas C vinv H1 H2 rho e t). Qed.
+
+Lemma xtring_sem_lawful C vinv : lawful C vinv ->
+  forall cx subs be names shocks s l r x,
+  side_written cx subs be s = Some (l, r) ->
+  compile_side cx subs be names shocks s = Some x ->
+  forall (X : Z -> Z -> val C) t,
+    sem C X x t = vsub C (sem C (rho_model C names shocks X) r t) (sem C (rho_model C names shocks X) l t).
+Proof. intros [H1 _]. exact (xtring_sem C H1). Qed.
+
+(* when the anticipated shocks are zero the compiled dynamic equation is rhs - lhs as written *)
+Lemma xtring_sem_no_anticipation C vinv : lawful C vinv ->
+  forall cx subs be names shocks s l r x,
+  side_written cx subs be s = Some (l, r) ->
+  compile_side cx subs be names shocks s = Some x ->
+  forall (X : Z -> Z -> val C),
+    (forall n k, mem_s n shocks = true ->
+       rho_names C (fun n => index_of n names 0) X (append ant_prefix n) k = vnum C 0 0) ->
+    forall t, sem C X x t = vsub C (sem C (rho_names C (fun n => index_of n names 0) X) r t)
+                                   (sem C (rho_names C (fun n => index_of n names 0) X) l t).
+Proof.
+  intros [H1 H2] cx subs be names shocks s l r x Hw Hc X Hz t.
+  rewrite (xtring_sem C H1 _ _ _ _ _ _ _ _ _ Hw Hc X t).
+  assert (E : forall n k, rho_model C names shocks X n k = rho_names C (fun n => index_of n names 0) X n k).
+  { intros n k. unfold rho_model, rho_ant. destruct (mem_s n shocks) eqn:Em; [|reflexivity].
+    rewrite (Hz n k Em). destruct H1. rewrite Radd_comm. apply Radd_0_l. }
+  rewrite !(sem_ext C _ _ _ E). reflexivity.
+Qed.
+
+(* ------------------------------------------------------------------ *)
+(* 9. non-vacuity: a lawful carrier (canonical rationals) and a model  *)
+(* ------------------------------------------------------------------ *)
+Open Scope string_scope.
+Definition example_source : source :=
+  [DText (IKeyword (BQty QTransitionVariable 2));
+   DFor "?c" [TokName [Lit "a"]; TokName [Lit "b"]] ; DText (IQty [Lit "Var "; Ctl "?c" VPlain] [Lit "y_"; Ctl "?c" VPlain]); DEnd;
+   DText (IKeyword (BQty QTransitionShock 0)); DText (IQty [] [Lit "e"]);
+   DText (IKeyword (BQty QParameter 0)); DText (IQty [] [Lit "rho"]);
+   DText (IKeyword (BLog true 0)); DText (ILog [Lit "y_a"]);
+   DText (IKeyword (BEqn KTransition 0));
+   DFor "?c" [TokName [Lit "a"]; TokName [Lit "b"]];
+     DText (IEqn [] (mkSide (EName [Lit "y_"; Ctl "?c" VPlain] (ShZ 0 Curly)) false
+                            (EBin Add Caret (EBin Mul Caret (EName [Lit "rho"] (ShZ 0 Curly)) (EPseudo "diff" (EName [Lit "y_"; Ctl "?c" VPlain] (ShZ (-1) Curly)) None))
+                                            (EName [Lit "e"] (ShZ 0 Square)))
+                            [DIf (CdStrEq [Ctl "?c" VPlain] "b" false); DText (true, EName [Lit "y_a"] (ShZ 1 Curly)); DEnd])
+                 None);
+   DEnd].
+
+Example example_compiles :
+  compile [] true 100 example_source =
+  COk (mkModel
+    [mkQ "y_a" QTransitionVariable "Var a" (Some false); mkQ "y_b" QTransitionVariable "Var b" (Some true);
+     mkQ "e" QTransitionShock "" None; mkQ "ant_e" QAnticipatedShockValue "(Anticipated value) e" None;
+     mkQ "rho" QParameter "" None; mkQ "std_e" QTransitionStd "(Std) e" None]
+    [CBin Add (CBin Add (CNeg (CName 0 0)) (CBin Mul (CName 4 0) (CBin Sub (CName 0 (-1)) (CName 0 (-2)))))
+              (CBin Add (CName 2 0) (CName 3 0));
+     CBin Add (CBin Add (CBin Add (CNeg (CName 1 0)) (CBin Mul (CName 4 0) (CBin Sub (CName 1 (-1)) (CName 1 (-2)))))
+                        (CBin Add (CName 2 0) (CName 3 0)))
+              (CName 0 1)]
+    [CBin Add (CBin Add (CNeg (CName 0 0)) (CBin Mul (CName 4 0) (CBin Sub (CName 0 (-1)) (CName 0 (-2))))) (CName 2 0);
+     CBin Add (CBin Add (CBin Add (CNeg (CName 1 0)) (CBin Mul (CName 4 0) (CBin Sub (CName 1 (-1)) (CName 1 (-2))))) (CName 2 0))
+              (CName 0 1)]
+    [""; ""]).
+Proof. vm_compute. reflexivity. Qed.
+
+From Coq Require Import QArith Qcanon.
+
+Definition QcC : carrier := {|
+  val := Qc;
+  vadd := Qcplus; vsub := Qcminus; vmul := Qcmult; vdiv := Qcdiv; vpow := fun x _ => x; vneg := Qcopp;
+  vnum := fun m d => Q2Qc (m # Pos.of_nat (Nat.pow 10 d));
+  vfun := fun _ args => match args with x :: _ => x | [] => Q2Qc 0 end |}.
+
+Lemma QcC_lawful : lawful QcC Qcinv.
+Proof.
+  split.
+  - assert (E0 : vnum QcC 0 0 = 0%Qc) by (apply Qc_is_canon; reflexivity).
+    assert (E1 : vnum QcC 1 0 = 1%Qc) by (apply Qc_is_canon; reflexivity).
+    rewrite E0, E1. exact Qcrt.
+  - intros x y. reflexivity.
+Qed.
+
+
+Lemma example_compiles_summary :
+  exists m, compile [] true 100 example_source = COk m /\ List.length (m_dynamic m) = 2%nat
+            /\ map q_name (m_quantities m) = ["y_a"; "y_b"; "e"; "ant_e"; "rho"; "std_e"]%string.
+Proof. eexists. split; [exact example_compiles|]. split; reflexivity. Qed.
